@@ -499,11 +499,14 @@ impl<'a> Gen<'a> {
                 let mut m = match &vd.fields {
                     Some(fs) => self.fields(fs, Some(&e.tag), depth),
                     None => {
-                        if self.rng.chance(1, 4) {
-                            vec![("stray".to_string(), self.any(depth + 1))]
-                        } else {
-                            vec![]
+                        // a unit variant ignores every other member: zero to three strays
+                        let mut v = vec![];
+                        while v.len() < 3 && self.rng.chance(1, 3) {
+                            let k = format!("stray{}", v.len());
+                            let val = self.any(depth + 1);
+                            v.push((k, val));
                         }
+                        v
                     }
                 };
                 // a field whose key equals the tag is absent by construction (the tag entry wins)
